@@ -42,6 +42,9 @@ struct Built {
     bool fbNonDiagonal = false;            // a FunctionBased mobilizer whose rotation function k is not a function of q_k alone
     bool fbConstantRotation = false;       // a FunctionBased mobilizer with a nonzero Constant rotation function
     bool reversedLine = false;
+    int special = 0;                       // 0 random tree; 1 lone particles after quaternion-slot mobilizers; 2 Weld structures; 3 mixed Ball/Free/Pin orders
+    std::vector<int> particles;            // bodies built as RBNodeLoneParticle (Translation on Ground, forward, identity frames, leaf)
+    std::vector<int> leafWelds;
     bool avoidKnown = false;               // this tree stays out of the three input classes with known defects
     bool euler = false;             // a reversed LineOrientation / FreeLine mobilizer
     Built() : matter(sys), forces(sys) {}
@@ -100,28 +103,72 @@ static MobilizedBody addBody(Built& B, vh::Rng& r, MobilizedBody& parent, int ty
     }
 }
 
+// one body; `forced` >= 0 fixes the mobilizer type, fkF/mkF >= 0 the frame kinds, revF: -1 random, 0 forward
+static int addOne(Built& B, vh::Rng& r, int p, int forcedType, int fkF, int mkF, int revF) {
+    // valid mass properties from a point-mass cloud
+    Real m = 0; Vec3 com(0); Inertia I(0);
+    for (int k = 0; k < 4; ++k) { Vec3 x = rv(r, 0.6); Real mk = r.range(0.1, 1.0); m += mk; com += mk * x; I += Inertia(x, mk); }
+    com /= m;
+    Body::Rigid body(MassProperties(m, com, I));
+    int fk = fkF >= 0 ? fkF : r.below(3), mk = mkF >= 0 ? mkF : r.below(3);
+    Transform XPF = rX(r, fk), XBM = rX(r, mk);
+    int type = forcedType >= 0 ? forcedType : r.below(NTYPES);
+    bool rev = (revF < 0 ? r.coin() : revF != 0) && type != 11;
+    if (B.avoidKnown && !B.euler && (type == 13 || type == 14)) rev = false;
+    MobilizedBody mb = addBody(B, r, B.bodies[p], type, body, XPF, XBM, rev ? MobilizedBody::Reverse : MobilizedBody::Forward);
+    B.bodies.push_back(mb); B.type.push_back(type);
+    if (rev && (type == 13 || type == 14)) B.reversedLine = true;
+    B.tag.push_back(std::string("mob.") + TYPE_NAMES[type] + (rev ? ".rev" : ".fwd") + ".F" + std::to_string(fk) + "M" + std::to_string(mk));
+    return (int)B.bodies.size() - 1;
+}
+
 static void buildTree(Built& B, vh::Rng& r, int nb) {
     B.bodies.push_back(B.matter.Ground()); B.type.push_back(-1); B.tag.push_back("ground");
-    int style = r.below(3);   // 0 chain, 1 star-ish, 2 random
-    for (int i = 0; i < nb; ++i) {
-        int p;
-        if (style == 0) p = (int)B.bodies.size() - 1;
-        else if (style == 1) p = (i < 2) ? 0 : 1 + r.below(2);
-        else p = r.below((int)B.bodies.size());
-        // valid mass properties from a point-mass cloud
-        Real m = 0; Vec3 com(0); Inertia I(0);
-        for (int k = 0; k < 4; ++k) { Vec3 x = rv(r, 0.6); Real mk = r.range(0.1, 1.0); m += mk; com += mk * x; I += Inertia(x, mk); }
-        com /= m;
-        Body::Rigid body(MassProperties(m, com, I));
-        int fk = r.below(3), mk = r.below(3);
-        Transform XPF = rX(r, fk), XBM = rX(r, mk);
-        int type = r.below(NTYPES);
-        bool rev = r.coin() && type != 11;
-        if (B.avoidKnown && !B.euler && (type == 13 || type == 14)) rev = false;
-        MobilizedBody mb = addBody(B, r, B.bodies[p], type, body, XPF, XBM, rev ? MobilizedBody::Reverse : MobilizedBody::Forward);
-        B.bodies.push_back(mb); B.type.push_back(type);
-        if (rev && (type == 13 || type == 14)) B.reversedLine = true;
-        B.tag.push_back(std::string("mob.") + TYPE_NAMES[type] + (rev ? ".rev" : ".fwd") + ".F" + std::to_string(fk) + "M" + std::to_string(mk));
+    if (B.special == 1) {
+        // RBNodeLoneParticle (RigidBodyNode_LoneParticle.cpp has its own operator code): Translation on Ground, forward,
+        // identity frames, no children -- created AFTER mobilizers that own a quaternion slot, so that (in quaternion
+        // mode) its q index differs from its u index; then possibly one more ordinary body after the particles.
+        static const int QUATISH[] = {8, 10, 15, 13, 14, 17, 0, 6, 2};   // Ball Free Ellipsoid LineOrientation FreeLine CantileverFreeBeam | Pin Gimbal Universal
+        const int npart = 1 + r.below(std::min(3, std::max(1, nb - 1)));
+        const int tail = (nb - npart >= 2 && r.coin()) ? 1 : 0;
+        const int nfirst = std::max(1, nb - npart - tail);
+        for (int i = 0; i < nfirst; ++i)
+            addOne(B, r, r.below((int)B.bodies.size()), i == 0 ? QUATISH[r.below(6)] : QUATISH[r.below(9)], -1, -1, -1);
+        for (int i = 0; i < npart; ++i) B.particles.push_back(addOne(B, r, 0, 9, 0, 0, 0));
+        for (int i = 0; i < tail; ++i) addOne(B, r, r.below(nfirst + 1), -1, -1, -1, -1);
+    } else if (B.special == 2) {
+        // Weld nodes (RigidBodyNode_Weld.cpp: own operator code): Weld to Ground with children, Weld chains under mobile
+        // parents, leaf Welds with offset frames
+        const int nmob = std::max(1, nb / 2);
+        int g = addOne(B, r, 0, 11, -1, -1, 0);                              // Weld to Ground
+        std::vector<int> mobile;
+        for (int i = 0; i < nmob; ++i) mobile.push_back(addOne(B, r, (i == 0 || r.coin()) ? g : mobile[r.below((int)mobile.size())], -1, -1, -1, -1));
+        int left = nb - 1 - nmob;
+        while (left > 0) {
+            int par = mobile[r.below((int)mobile.size())];
+            int chain = 1 + r.below(std::min(left, 3));
+            for (int c = 0; c < chain; ++c) par = addOne(B, r, par, 11, 1 + r.below(2), 1 + r.below(2), 0);   // offset frames
+            B.leafWelds.push_back(par);
+            if (r.below(3) == 0 && left - chain > 0) { mobile.push_back(addOne(B, r, par, -1, -1, -1, -1)); B.leafWelds.pop_back(); ++chain; }   // a mobile body outboard of a Weld chain
+            left -= chain;
+        }
+    } else if (B.special == 3) {
+        // mixed orders of mobilizers with and without a quaternion slot: q index != u index for most bodies
+        static const int MIX[] = {8, 10, 0, 1, 2, 0, 8, 9, 3};
+        int style = r.below(3);
+        for (int i = 0; i < nb; ++i) {
+            int p = style == 0 ? (int)B.bodies.size() - 1 : style == 1 ? (i < 2 ? 0 : 1 + r.below(2)) : r.below((int)B.bodies.size());
+            addOne(B, r, p, MIX[r.below(9)], -1, -1, -1);
+        }
+    } else {
+        int style = r.below(3);   // 0 chain, 1 star-ish, 2 random
+        for (int i = 0; i < nb; ++i) {
+            int p;
+            if (style == 0) p = (int)B.bodies.size() - 1;
+            else if (style == 1) p = (i < 2) ? 0 : 1 + r.below(2);
+            else p = r.below((int)B.bodies.size());
+            addOne(B, r, p, -1, -1, -1, -1);
+        }
     }
     B.discrete = new Force::DiscreteForces(B.forces, B.matter);
 }
@@ -140,7 +187,11 @@ static void runCase(uint64_t caseSeed, int nbMax) {
     Built B;
     const bool euler = B.euler = r.below(3) == 0;
     B.avoidKnown = r.below(10) < 6;
+    // a guaranteed share of structured trees for the special-cased node classes (see notes/C04.md, coverage)
+    { int sp = r.below(10); B.special = sp < 2 ? 1 : sp < 4 ? 2 : sp < 5 ? 3 : 0; }
+    if (B.special && nb < 3) nb = 3;
     buildTree(B, r, nb);
+    nb = (int)B.bodies.size() - 1;
     MultibodySystem& sys = B.sys; SimbodyMatterSubsystem& matter = B.matter;
     State s = sys.realizeTopology();
     matter.setUseEulerAngles(s, euler);
@@ -174,12 +225,15 @@ static void runCase(uint64_t caseSeed, int nbMax) {
     const int nB = nb + 1;   // including Ground
     Vector_<SpatialVec> F(nB); for (int i = 0; i < nB; ++i) F[i] = SpatialVec(rv(r), rv(r));
     int nt = r.below(12) == 0 ? 0 : 1 + r.below(5);
+    if (B.special == 1 || B.special == 2) nt = std::max(nt, 2);
     Array_<MobilizedBodyIndex> tb; Array_<Vec3> tp;
     for (int t = 0; t < nt; ++t) {
         int b;
         if (t > 0 && r.below(3) == 0) b = (int)tb[r.below(t)];         // repeated body
         else if (r.below(15) == 0) b = 0;                               // Ground task
         else b = 1 + r.below(nb);
+        if (t < (int)B.particles.size() && r.below(4) != 0) b = B.particles[t];          // tasks on lone particles
+        if (t < (int)B.leafWelds.size() && r.below(3) != 0) b = B.leafWelds[t];          // tasks on leaf Welds
         tb.push_back(MobilizedBodyIndex(b)); tp.push_back(rv(r));
     }
     Vector_<Vec3> fS(nt); Vector_<SpatialVec> FA(nt);
@@ -253,6 +307,20 @@ static void runCase(uint64_t caseSeed, int nbMax) {
     vh::D("nb." + std::to_string(nb <= 3 ? nb : nb <= 6 ? 6 : nb <= 12 ? 12 : nb <= 24 ? 24 : 40));
     vh::D("nt." + std::to_string(nt));
     for (int i = 1; i <= nb; ++i) vh::D(B.tag[i]);
+    {   // special-cased node classes and index layouts
+        bool anyQneU = false, particleQneU = false;
+        for (int i = 1; i <= nb; ++i) if (B.bodies[i].getNumU(s) > 0 && (int)B.bodies[i].getFirstQIndex(s) != (int)B.bodies[i].getFirstUIndex(s)) anyQneU = true;
+        for (int i : B.particles) if ((int)B.bodies[i].getFirstQIndex(s) != (int)B.bodies[i].getFirstUIndex(s)) particleQneU = true;
+        if (anyQneU) vh::D("class.qIndexNeUIndex");
+        if (!B.particles.empty()) {
+            vh::D(std::string("class.loneParticle.afterQuatSlot.") + (euler ? "euler" : "quaternion"));
+            if (particleQneU) vh::D("class.loneParticle.qIndexNeUIndex");
+            bool tasked = false; for (int t = 0; t < nt; ++t) for (int i : B.particles) if ((int)tb[t] == i) tasked = true;
+            if (tasked) vh::D("class.loneParticle.hasTask");
+        }
+        if (B.special == 2) { vh::D("class.weld.structures"); bool tasked = false; for (int t = 0; t < nt; ++t) for (int i : B.leafWelds) if ((int)tb[t] == i) tasked = true; if (tasked) vh::D("class.weld.leafHasTask"); }
+        if (B.special == 3) vh::D("class.mixedQuatOrders");
+    }
     if (B.fbNonDiagonal) vh::D("class.FunctionBased.nondiagonalRotations");
     if (B.fbConstantRotation) vh::D("class.FunctionBased.constantRotationOffset");
     if (B.reversedLine && !euler) vh::D("class.reversedLine.quaternion");
